@@ -24,7 +24,21 @@ func runRace(f lib.Flags, res *lib.Result) {
 	bin := filepath.Join(f.Work, "c08_racewl")
 	env := append(os.Environ(), "CGO_ENABLED=1", "GOFLAGS=-mod=mod", "GOPROXY=off", "GOSUMDB=off", "GOTOOLCHAIN=local")
 	t0 := time.Now()
-	cmd := exec.Command("go", "build", "-race", "-tags", "verif unit", "-o", bin, "./cmd/c08/racewl")
+	repo := os.Getenv("VERIF_REPO")
+	if repo == "" {
+		repo = "/repo"
+	}
+	rdir := filepath.Join(f.Work, "c08_race")
+	_ = os.MkdirAll(rdir, 0o755)
+	bargs := []string{"build", "-race", "-tags", "verif unit", "-o", bin}
+	mfArgs, mfErr := modfileArgs(verif, repo, rdir)
+	if mfErr != nil {
+		res.Note("race variant NOT run: " + mfErr.Error())
+		res.Hit("race:unavailable")
+		return
+	}
+	bargs = append(append(bargs, mfArgs...), "./cmd/c08/racewl")
+	cmd := exec.Command("go", bargs...)
 	cmd.Dir = filepath.Join(verif, "harness")
 	cmd.Env = env
 	out, err := cmd.CombinedOutput()
